@@ -7,14 +7,15 @@ from ..common import d42  # noqa: F401
 from d42 import optional, represent, schema, substitute
 from d42.representation import Representor
 
-MODULE = "D42.Props.C06"
+MODULE = "D42.Props.C06Containers"
 THEOREMS = ["repr_scalar_roundtrip", "reprScalar_eq_calls", "repr_scalar_stable", "pattern_excludes_len",
-            "represent_listE_layout", "reprElems_indent"]
-FILES = ["D42/Model/Data.lean", "D42/Model/Repr.lean", "D42/Model/Decl.lean", "D42/Props/C11.lean", "D42/Props/C06.lean"]
+            "represent_listE_layout", "reprElems_indent",
+            "rebuild_roundtrip", "rebuild_same_repr", "rebuild_roundtrip_counterexample", "hC06C_rebuild_roundtrip_iff", "declarable_example"]
+FILES = ["D42/Model/Data.lean", "D42/Model/Repr.lean", "D42/Model/Decl.lean", "D42/Props/C11.lean", "D42/Props/C06.lean", "D42/Props/C06Containers.lean"]
 
 EVIDENCE = dict(
     level="proof",
-    checker_cmd="lake build D42.Props.C06 d42model && lake env lean <#print axioms audit>",
+    checker_cmd="lake build D42.Props.C06Containers d42model && lake env lean <#print axioms audit>",
     trusted=["Lean kernel; standard axioms", "Python evaluates the printed text to the call tree it denotes (CPython's parser)",
              "literal rendering (repr of str/float/bytes/UUID/datetime) is CPython's; the model prints holes the harness fills",
              "representation model tied to the code by exact text comparison at several indents on this run's schemas"],
@@ -141,9 +142,15 @@ MANIFEST = dict(
     category="proof",
     technique="Lean 4 theorems about the representation model (call-tree replay through the declaration model) + exact text "
               "correspondence + eval(repr(s)) search on the real code",
-    text="Props/C06.lean states that replaying the calls printed for a well-formed schema through the declaration model rebuilds "
-         "an equal schema with the same printed form (per constructor as proved; see evidence), and that nested containers are "
-         "printed at indent+4 and closed at indent; tie: the model's token stream with CPython-rendered literals equals the real "
-         "repr at indents 0/4/3; search: eval(repr(s)) == s and prints the same, on the real code.",
-    note="Partial: FiniteFloats (inf/nan literals are not evaluable, K6 family). Trusted: Lean kernel + standard axioms, CPython's "
-         "parser and literal repr, hand model (sampling tie), codec.")
+    text="Props/C06.lean: replaying the calls printed for a scalar schema through the declaration model rebuilds exactly "
+         "the schema (repr_scalar_roundtrip) and the printed tokens are exactly those calls (reprScalar_eq_calls), hence "
+         "the same text again (repr_scalar_stable); pattern and len are never both printed (pattern_excludes_len); "
+         "containers print members at indent+4 and close at indent (layout lemmas). Props/C06Containers.lean: "
+         "rebuild_roundtrip — evaluating the printed calls bottom-up rebuilds exactly the schema for every schema built by "
+         "any sequence of declaration calls, at any nesting depth (lists of a type / of elements with ... markers and len, "
+         "dicts with optional keys and ...: ... at its position, unions), rebuild_same_repr. Tie: the model's token stream "
+         "with CPython-rendered literals equals the real repr at indents 0/4/3; search: eval(repr(s)) == s and prints the "
+         "same, on the real code.",
+    note="Partial: finite floats (inf/nan literals are not evaluable, K6 family); an empty union cannot be built or "
+         "printed (rebuild_roundtrip_counterexample: schema.any() is a TypeError). Trusted: Lean kernel + standard axioms, "
+         "CPython's parser and literal repr, hand model (sampling tie), codec.")
